@@ -118,23 +118,48 @@ func PubKeyToAddr(addressID int32, pubKey []byte) string {
 // blockHeight is used for enable check, pass -1 if there is no block height context
 func CheckAddress(addr string, blockHeight int64) (e error) {
 
-	if value, ok := checkAddressCache.Get(addr); ok {
+	key := newCheckAddressKey(addr, blockHeight)
+	if value, ok := checkAddressCache.Get(key); ok {
 		if value != nil {
 			return value.(error)
 		}
 		return nil
 	}
-	for _, d := range drivers {
-		if !isEnable(blockHeight, d.enableHeight) {
+	// drivers are tried in id order (not in map order), so that the verdict and the error reported
+	// for an address no driver accepts (the one of the lowest-id enabled driver) are deterministic
+	for id := int32(0); id <= MaxID; id++ {
+		d, ok := drivers[id]
+		if !ok || !isEnable(blockHeight, d.enableHeight) {
 			continue
 		}
-		e = d.driver.ValidateAddr(addr)
-		if e == nil {
+		err := d.driver.ValidateAddr(addr)
+		if err == nil {
+			e = nil
 			break
 		}
+		if e == nil {
+			e = err
+		}
 	}
-	checkAddressCache.Add(addr, e)
+	checkAddressCache.Add(key, e)
 	return e
+}
+
+// checkAddressKey the verdict of CheckAddress depends on the address and on the set of drivers
+// enabled at the block height, so both are part of the cache key
+type checkAddressKey struct {
+	addr    string
+	enabled uint32
+}
+
+func newCheckAddressKey(addr string, blockHeight int64) checkAddressKey {
+	key := checkAddressKey{addr: addr}
+	for id, d := range drivers {
+		if isEnable(blockHeight, d.enableHeight) {
+			key.enabled |= 1 << uint32(id)
+		}
+	}
+	return key
 }
 
 // GetAddressType get address type id
